@@ -27,6 +27,7 @@ ASSUMPTIONS = [
 ]
 
 CODE = "print('zqv')"
+NF = 5
 
 
 def _family(fam, x):
@@ -36,7 +37,10 @@ def _family(fam, x):
         return b"\x80\x04\x95\x03\x00\x00\x00\x00\x00\x00\x00K" + bytes([x]) + b"."
     if fam == 2:
         return b"]q\x00(K" + bytes([x]) + b"K\x02e."
-    return b"czqv_m\nf\n(K" + bytes([x]) + b"tR."
+    if fam == 3:
+        return b"czqv_m\nf\n(K" + bytes([x]) + b"tR."
+    # a frame that legitimately ends before the rest of the pickle (what the pickler does around >= 64 KiB payloads)
+    return b"\x80\x04\x95\x02\x00\x00\x00\x00\x00\x00\x00K" + bytes([x]) + b"\x94."
 
 
 def make_inject_lemma(n, run_last, replace):
@@ -44,17 +48,18 @@ def make_inject_lemma(n, run_last, replace):
 
     def lem(k: int, fam: int, x0: int, x1: int, x2: int) -> bool:
         """
-        pre: 0 <= k <= 3 and 0 <= fam < 64
+        pre: 0 <= k <= 3 and 0 <= fam < 125
         pre: 0 <= x0 < 256 and 0 <= x1 < 256 and 0 <= x2 < 256
         post: _
         """
-        if k > n or fam >= 4 ** n:
+        if k > n or fam >= NF ** n:
             return True
-        k, fam = pin(k, 0, n), pin(fam, 0, 4 ** n - 1)
-        if QUICK[0] and n == 3 and fam not in (0, 21, 42, 63, 27, 6, 57, 5, 20, 17, 23, 61):
-            return True      # quick: 12 of the 64 family triples (all-equal, all-different, equal neighbours); thorough: all
-        # an independent family per pickle (base-4 digits of fam): neighbours may be of the same family and size
-        parts = [_family((fam // (4 ** i)) % 4, x) for i, x in enumerate([x0, x1, x2][:n])]
+        k, fam = pin(k, 0, n), pin(fam, 0, NF ** n - 1)
+        digits = [(fam // (NF ** i)) % NF for i in range(n)]
+        if QUICK[0] and n == 3 and not (len(set(digits)) == 1 or digits in ([3, 2, 1], [2, 1, 0], [1, 2, 3], [1, 1, 0], [0, 1, 1], [1, 0, 1], [4, 1, 4], [0, 4, 3], [4, 4, 1])):
+            return True      # quick: 14 of the 125 family triples (all-equal, all-different, equal neighbours); thorough: all
+        # an independent family per pickle (base-5 digits of fam): neighbours may be of the same family and size
+        parts = [_family(d_, x) for d_, x in zip(digits, [x0, x1, x2][:n])]
         data = b"".join(parts)
         argv = ["fickling", "--inject", CODE, "--inject-target", str(k)] + flags
         with patched_io():
@@ -116,6 +121,34 @@ def inject_from_file(n: int, k: int, fl: int, x: int) -> bool:
             (p.dumps() == (want.dumps() if i == k else parts[i])) for i, p in enumerate(sp))
 
 
+def pipe(n: int, k: int, fl: int, fam: int) -> bool:
+    """
+    pre: 2 <= n <= 3 and 0 <= k <= 3 and 0 <= fl < 5 and 0 <= fam < 125
+    post: _
+    """
+    # the stack arrives on a real pipe: stdin is NOT seekable (fl 4 = plain decompilation instead of injection)
+    n, k, fl = pin(n, 2, 3), pin(k, 0, 3), pin(fl, 0, 4)
+    if k > n or fam >= NF ** n or (fl == 4 and k != 0):
+        return True
+    fam = pin(fam, 0, NF ** n - 1)
+    with native():
+        parts = [_family((fam // (NF ** i)) % NF, 10 + i) for i in range(n)]
+        data = b"".join(parts)
+        if fl == 4:
+            rc, out, txt, _, _ = run_cli(["fickling"], data, seekable=False)
+            rt.reach()
+            return rc == 0 and all(("result%d = " % i) in txt for i in range(n))
+        flags = (["--run-last"] if fl & 1 else []) + (["--replace-result"] if fl & 2 else [])
+        rc, out, txt, _, _ = run_cli(["fickling", "--inject", CODE, "--inject-target", str(k)] + flags, data, seekable=False)
+        rt.reach(k < n)
+        if k >= n:
+            return rc != 0 and out == b""
+        sp = StackedPickle.load(out)
+        want = Pickled.load(parts[k])
+        want.insert_python_eval(CODE, run_first=not (fl & 1), use_output_as_unpickle_result=bool(fl & 2))
+        return rc == 0 and len(sp) == n and all((p.dumps() == (want.dumps() if i == k else parts[i])) for i, p in enumerate(sp))
+
+
 def make_decompile_lemma(n, trace):
     def lem(fam: int, x0: int, x1: int, x2: int) -> bool:
         """
@@ -129,6 +162,7 @@ def make_decompile_lemma(n, trace):
         xs = [pin(x0, 0, 1), pin(x1, 0, 1), pin(x2, 0, 1)][:n]
         with native():
             parts = [_family((fam // (4 ** i)) % 4, x) for i, x in enumerate(xs)]
+
             rc, out, txt, _, _ = run_cli(["fickling"] + (["--trace"] if trace else []), b"".join(parts))
             rt.reach()
             if rc != 0:
@@ -175,9 +209,12 @@ def lemmas(tier):
         fn = make_inject_lemma(n, a, b)
         L.append(Lemma(fn.__name__, fn, timeout=200 if q else 900,
                        dry=[{"k": 0, "fam": 0, "x0": 1, "x1": 2, "x2": 3}, {"k": n, "fam": 1, "x0": 1, "x1": 2, "x2": 3},
-                            {"k": 0, "fam": [1, 5, 21][n - 1], "x0": 1, "x1": 2, "x2": 3}, {"k": n - 1, "fam": [3, 15, 63][n - 1], "x0": 7, "x1": 7, "x2": 7}],
-                       doc={"S": ["x0..x%d: payload byte of every stacked pickle" % (n - 1)], "F": ["target k in 0..%d (incl. one past the end)" % n, "family of each pickle independently (4^n)", "n=%d run_last=%s replace=%s" % (n, a, b)],
+                            {"k": 0, "fam": [1, 6, 31][n - 1], "x0": 1, "x1": 2, "x2": 3}, {"k": n - 1, "fam": [3, 18, 93][n - 1], "x0": 7, "x1": 7, "x2": 7},
+                            {"k": 0, "fam": [4, 24, 124][n - 1], "x0": 1, "x1": 2, "x2": 3}, {"k": n - 1, "fam": [4, 4, 4][n - 1], "x0": 1, "x1": 2, "x2": 3}],
+                       doc={"S": ["x0..x%d: payload byte of every stacked pickle" % (n - 1)], "F": ["target k in 0..%d (incl. one past the end)" % n, "family of each pickle independently (5^n)", "n=%d run_last=%s replace=%s" % (n, a, b)],
                             "bound": "n<=3 pickles from 4 families"}))
+    L.append(Lemma("pipe", pipe, timeout=300 if q else 900, dry=[{"n": 3, "k": 1, "fl": 0, "fam": 6}, {"n": 2, "k": 0, "fl": 4, "fam": 13}],
+                   doc={"F": ["stdin is a non-seekable stream (a real pipe): n in 2..3, target, flags or plain decompilation, family of each pickle (5^n); contents pinned"], "bound": "n<=3"}))
     L.append(Lemma("inject_from_file", inject_from_file, timeout=200, dry=[{"n": 3, "k": 1, "fl": 0, "x": 0}],
                    doc={"F": ["n, k, flags, contents pinned; input read from a real temp file; input file unchanged"], "bound": "pinned contents"}))
     for n, tr in [(n, t) for n in (1, 2, 3) for t in (False, True)]:
